@@ -384,10 +384,15 @@ pub fn report() {
         !w.viol[V_C16],
         "C16: pending child re-polled although none of its wakers fired"
     );
-    assert!(
-        !w.viol[V_LOST_WAKE],
-        "C01: child woke its waker but the task that last polled the combinator was not woken"
-    );
+    if w.viol[V_LOST_WAKE] {
+        // in a group a lost wake-up means the member's output / items are never yielded
+        // ("across any interleaving of ... polling and child wake-ups")
+        match w.group_fam {
+            11 => assert!(false, "C01/C11: member woke its waker but the task that last polled the FutureGroup was not woken"),
+            12 => assert!(false, "C01/C12: member woke its waker but the task that last polled the StreamGroup was not woken"),
+            _ => assert!(false, "C01: child woke its waker but the task that last polled the combinator was not woken"),
+        }
+    }
     if w.viol[V_NOT_STARTED] {
         // in a group a member that was never polled holds no waker: nothing can ever make the
         // group poll it, so its output / items are never yielded
@@ -400,6 +405,11 @@ pub fn report() {
     if w.viol[V_WOKEN_NOT_POLLED] {
         // race / race_ok have no readiness tracking: they must look at every live child in every
         // poll, otherwise they do not resolve "in the first poll in which a child resolves"
+        match w.group_fam {
+            11 => assert!(false, "C01/C20/C11: a woken member was not polled by the FutureGroup poll that followed its wake-up"),
+            12 => assert!(false, "C01/C20/C12: a woken member was not polled by the StreamGroup poll that followed its wake-up"),
+            _ => {}
+        }
         match w.short {
             1 => assert!(false, "C01/C20/C06: a woken child was not polled by the race poll that followed its wake-up"),
             4 => assert!(false, "C01/C20/C07: a woken child was not polled by the race_ok poll that followed its wake-up"),
@@ -696,7 +706,13 @@ pub fn assert_all_dropped() {
             w.child_state[i] == 0 || w.child_state[i] == 2,
             "C02: child leaked (not dropped with its combinator)"
         );
-        assert!(w.val_live[i] == 0, "C02: value leaked");
+        if w.val_live[i] != 0 {
+            // try_join: "values already produced by other children are dropped rather than returned"
+            if w.short == 2 && w.decider != 255 {
+                assert!(false, "C02/C05: value produced by a sibling was neither returned nor dropped after try_join failed");
+            }
+            assert!(false, "C02: value leaked");
+        }
         i += 1;
     }
 }
